@@ -138,9 +138,11 @@ pub fn set_internal_hooks(hooks: Option<(fn(), fn())>) {
     *HOOKS.lock().unwrap_or_else(|e| e.into_inner()) = hooks;
 }
 
-struct Internal(Option<fn()>);
+pub(crate) struct Internal(Option<fn()>);
 
-fn internal() -> Internal {
+/// Marks the calling thread as doing scheduler/shim bookkeeping until the
+/// returned guard is dropped.
+pub(crate) fn internal() -> Internal {
     let hooks = *HOOKS.lock().unwrap_or_else(|e| e.into_inner());
     if let Some((enter, exit)) = hooks {
         enter();
